@@ -170,14 +170,19 @@ async fn rust_client(repo: &str, port: u16, op: &str, unit: u8, start: u16, n: u
 
 #[allow(clippy::too_many_arguments)]
 async fn rust_client_with(ca: &str, cert: &str, key: &str, port: u16, op: &str, unit: u8, start: u16, n: u16) -> String {
-    let tls = match TlsClientConfig::full_pki(
-        Some("test.com".to_string()),
-        std::path::Path::new(ca),
-        std::path::Path::new(cert),
-        std::path::Path::new(key),
-        None,
-        MinTlsVersion::V1_2,
-    ) {
+    // `ss:<path>` = self-signed mode: <path> is the server's own certificate
+    let tls = match if let Some(peer) = ca.strip_prefix("ss:") {
+        TlsClientConfig::self_signed(std::path::Path::new(peer), std::path::Path::new(cert), std::path::Path::new(key), None, MinTlsVersion::V1_2)
+    } else {
+        TlsClientConfig::full_pki(
+            Some("test.com".to_string()),
+            std::path::Path::new(ca),
+            std::path::Path::new(cert),
+            std::path::Path::new(key),
+            None,
+            MinTlsVersion::V1_2,
+        )
+    } {
         Ok(x) => x,
         Err(e) => return format!("ERR:tls config {e}"),
     };
@@ -336,14 +341,32 @@ fn sequence(env: &Env, p: &[&str]) -> String {
     }
     let (server, policy, unit) = (p[1], p[2], p[3].parse::<u8>().unwrap());
     let (allow, by_role, coils_only) = (policy == "allow", policy == "byrole", policy == "coils");
-    let d = format!("{}/ca2", env.certs);
     let sessions: Vec<Vec<&str>> = p[4].split(',').map(|x| x.split(':').collect()).collect();
+    // the certificate set is chosen by the role of the first session:
+    //   chained -> <certs>/chain: the server trusts only the root; the client presents [own certificate (role viewer),
+    //              issuing CA certificate (role engineer)]
+    //   nulrole -> <certs>/nul, self-signed mode: the client certificate's role string contains U+0000
+    //   anything else -> <certs>/ca2
+    let first_role = sessions[0][0];
+    let set = if first_role == "chained" { "chain" } else if first_role == "nulrole" { "nul" } else { "ca2" };
+    let self_signed = set == "nul";
+    let d = format!("{}/{}", env.certs, set);
+    let (srv_trust, srv_cert, srv_key) = if self_signed {
+        (format!("{d}/nul_role_cert.pem"), format!("{d}/entity1_cert.pem"), format!("{d}/entity1_key.pem"))
+    } else {
+        (format!("{d}/ca_cert.pem"), format!("{d}/server_cert.pem"), format!("{d}/server_key.pem"))
+    };
+    let client_trust = if self_signed { format!("ss:{d}/entity1_cert.pem") } else { format!("{d}/ca_cert.pem") };
     let cert_of = |role: &str| match role {
         "operator" => ("client_cert.pem", "client_key.pem"),
         "viewer" => ("client_otherrole_cert.pem", "client_otherrole_key.pem"),
         // certificates WITHOUT a usable role: no role extension / two role extensions
         "roleless" => ("client_roleless_cert.pem", "client_roleless_key.pem"),
         "tworoles" => ("client_tworoles_cert.pem", "client_tworoles_key.pem"),
+        // ca2: a client that presents [own certificate (role operator), intermediate CA certificate (no role)]
+        "viaint" => ("client_viaint_fullchain.pem", "client_viaint_key.pem"),
+        "chained" => ("client_chain_cert.pem", "client_chain_key.pem"),
+        "nulrole" => ("nul_role_cert.pem", "nul_role_key.pem"),
         _ => ("client_mixedrole_cert.pem", "client_mixedrole_key.pem"),
     };
     let run_sessions = |port: u16, calls: &dyn Fn() -> Vec<String>| -> String {
@@ -352,7 +375,7 @@ fn sequence(env: &Env, p: &[&str]) -> String {
             let (role, op, start, n) = (sess[0], sess[1], sess[2].parse::<u16>().unwrap(), sess[3].parse::<u16>().unwrap());
             let (cert, key) = cert_of(role);
             let before = calls().len();
-            let r = env.rt.block_on(rust_client_with(&format!("{d}/ca_cert.pem"), &format!("{d}/{cert}"), &format!("{d}/{key}"), port, op, unit, start, n));
+            let r = env.rt.block_on(rust_client_with(&client_trust, &format!("{d}/{cert}"), &format!("{d}/{key}"), port, op, unit, start, n));
             let after = calls();
             out.push(format!("client={r} auth={} x{}", after.last().cloned().unwrap_or_else(|| "-".into()), after.len() - before));
         }
@@ -374,14 +397,14 @@ fn sequence(env: &Env, p: &[&str]) -> String {
                 on_destroy: Some(noop_destroy),
                 ctx,
             };
-            let (ca, sc, sk, empty) = (cstr(&format!("{d}/ca_cert.pem")), cstr(&format!("{d}/server_cert.pem")), cstr(&format!("{d}/server_key.pem")), cstr(""));
+            let (ca, sc, sk, empty) = (cstr(&srv_trust), cstr(&srv_cert), cstr(&srv_key), cstr(""));
             let cfg = ffi::TlsServerConfig {
                 peer_cert_path: ca.as_ptr(),
                 local_cert_path: sc.as_ptr(),
                 private_key_path: sk.as_ptr(),
                 password: empty.as_ptr(),
                 min_tls_version: ffi::MinTlsVersion::V12.into(),
-                certificate_mode: ffi::CertificateMode::AuthorityBased.into(),
+                certificate_mode: if self_signed { ffi::CertificateMode::SelfSigned.into() } else { ffi::CertificateMode::AuthorityBased.into() },
             };
             unsafe {
                 let map = ffi::rodbus_device_map_create();
@@ -427,12 +450,12 @@ fn sequence(env: &Env, p: &[&str]) -> String {
             let map = ServerHandlerMap::single(UnitId::new(unit), TenPoints.wrap());
             let addr = SocketAddr::new(IpAddr::from([127, 0, 0, 1]), port);
             let cfg = match rodbus::server::TlsServerConfig::new(
-                std::path::Path::new(&format!("{d}/ca_cert.pem")),
-                std::path::Path::new(&format!("{d}/server_cert.pem")),
-                std::path::Path::new(&format!("{d}/server_key.pem")),
+                std::path::Path::new(&srv_trust),
+                std::path::Path::new(&srv_cert),
+                std::path::Path::new(&srv_key),
                 None,
                 rodbus::server::MinTlsVersion::V1_2,
-                rodbus::server::CertificateMode::AuthorityBased,
+                if self_signed { rodbus::server::CertificateMode::SelfSigned } else { rodbus::server::CertificateMode::AuthorityBased },
             ) {
                 Ok(c) => c,
                 Err(e) => return format!("FAIL:tls config {e}"),
